@@ -841,4 +841,7 @@ func (s *vfC07Sys) sample() (v map[string]any) {
 const (
 	vfC07SigCursor = "cursor-of-memory-entry-skips-newest-file-entry"
 	vfC07SigLimit  = "negative-or-overflowing-limit-offset-panics"
+	// a search term that spans a byte which JSON escapes (& < >) in a stored
+	// name does not find the entry once it is in a file
+	vfC07SigEscaped = "search-term-over-json-escaped-byte-misses-file-entries"
 )
